@@ -951,9 +951,10 @@ impl Router {
 ///    the caller (`route_from_request`) into `context.original_authority`
 ///    on every routed request so it survives every downstream code path
 ///    (audit, deny, redirect, basic-auth 401, backend-connect failure).
-///    Dedup rule: the synthetic Host AND any pre-existing Host header
-///    are dropped in the retain pass below before the rewritten Host is
-///    appended, so the wire never carries two `Host:` headers.
+///    Dedup rule: any pre-existing Host header block is dropped in the
+///    retain pass below and none is added; the converters emit the
+///    rewritten authority (H1 `Host:` line, H2 `:authority`), so the
+///    wire never carries two `Host:` headers.
 /// 2. If `rewritten_path` is set, replace both the abstract path
 ///    (consumed by H2 `:path`) and the request-line URI (consumed by
 ///    the H1 converter) so cardinality H1↔H1, H1↔H2, H2↔H1, H2↔H2 all
@@ -1086,21 +1087,20 @@ fn apply_request_rewrites_and_headers(
     }
 
     // ── insertion before the end-of-headers flag ──────────────────────
-    // Every header we add (rewritten Host, X-Forwarded-Host,
-    // operator-supplied set/append edits) must land before
+    // Every header we add (X-Forwarded-Host, operator-supplied
+    // set/append edits) must land before
     // `Block::Flags { end_header: true }` so the converter emits them
-    // as part of the request header block. Synthetic Host/X-Forwarded-Host
-    // are prepended (they describe the rewrite, not an operator policy).
+    // as part of the request header block. The synthetic X-Forwarded-Host
+    // is prepended (it describes the rewrite, not an operator policy).
     let end_header_idx = super::shared::end_of_headers_index(kawa);
 
     if rewriting_host {
-        let mut synth: Vec<Block> = Vec::with_capacity(2);
-        if let Some(new_host) = rewritten_host {
-            synth.push(Block::Header(Pair {
-                key: Store::Static(b"Host"),
-                val: Store::from_string(new_host.to_owned()),
-            }));
-        }
+        // No synthetic `Host` block here: the status-line authority was
+        // replaced above and both converters derive the wire value from it
+        // (kawa's H1 converter writes `Host: <authority>` with the request
+        // line, the H2 converter emits `:authority`). A `Host` block on top
+        // of that puts two `Host:` lines on an H1 backend wire.
+        let mut synth: Vec<Block> = Vec::with_capacity(1);
         if let Some(orig) = original_authority.as_deref() {
             synth.push(Block::Header(Pair {
                 key: Store::Static(b"X-Forwarded-Host"),
